@@ -1,7 +1,7 @@
 #!/bin/bash
 # runs every property's check at the given tier, sequentially; prints one summary line per property
 T="${1:-quick}"
-cd /verif
+cd "$(dirname "$0")/.."
 for i in 01 02 03 04 05 06 07 08 09 10 11 12 13 14 15 16 17 18 19; do
   S=$(date +%s)
   OUT=$(./check C$i --tier $T 2>/dev/null); RC=$?
